@@ -132,14 +132,8 @@ Qed.
 Lemma user_fds_idem k l : user_fds k (user_fds k l) = user_fds k l.
 Proof.
   unfold user_fds. induction l as [|e l IH]; cbn; [reflexivity|].
-  destruct (N.ltb (fst e) 10 && negb (rewired k (fst e))) eqn:E; cbn; [rewrite E, IH|]; auto.
-Qed.
-
-Lemma user_fds_lt10 k l : forallb (fun e => N.ltb (fst e) 10 || snd (snd e)) (user_fds k l) = true.
-Proof.
-  unfold user_fds. induction l as [|e l IH]; cbn; [reflexivity|].
-  destruct (N.ltb (fst e) 10) eqn:E; cbn; [|exact IH].
-  destruct (negb (rewired k (fst e))); cbn; [rewrite E; cbn; exact IH | exact IH].
+  destruct ((N.ltb (fst e) 10 || negb (snd (snd e))) && negb (rewired k (fst e))) eqn:E; cbn;
+    [rewrite E, IH|]; auto.
 Qed.
 
 (* the oracle accepts the model's own entry view: it demands no more than
@@ -147,8 +141,7 @@ Qed.
 Lemma entry_ok_model k p : entry_ok k p (enter_view k p) = true.
 Proof.
   unfold entry_ok. cbn [s_vars s_pos s_funs s_aliases s_opts s_cwd s_umask s_traps s_fds enter_view].
-  rewrite user_fds_idem. rewrite user_fds_lt10, andb_true_r.
-  apply snap_eqb_refl.
+  rewrite user_fds_idem. apply snap_eqb_refl.
 Qed.
 
 Lemma no_leak_refl s : no_leak s s = true.
